@@ -210,7 +210,11 @@ class FunctionReport:
 
 
 def _enum_space(c):
-    """cartesian product of enumerated parameter values"""
+    """cartesian product of enumerated parameter values (or a covering set when c.enum_cover)"""
+    if c.enum_cover and c.enum_params:
+        n = max(len(v) for v in c.enum_params.values())
+        return [{p: vals[(k + 0) % len(vals)] for p, vals in c.enum_params.items()} for k in range(n)] + \
+               [{p: vals[(k + i) % len(vals)] for i, (p, vals) in enumerate(c.enum_params.items())} for k in range(n)]
     space = [{}]
     for p, vals in c.enum_params.items():
         space = [dict(s, **{p: v}) for s in space for v in vals]
@@ -242,7 +246,11 @@ def symbolic_params(c, it: Interp, fixed: dict):
     return env
 
 
-def verify_function(qualname: str, timeout_ms=20000, cross_check=False, only=None) -> FunctionReport:
+def n_variants(qualname: str) -> int:
+    return len(_enum_space(registry.CONTRACTS[qualname]))
+
+
+def verify_function(qualname: str, timeout_ms=20000, cross_check=False, only=None, chunk=None) -> FunctionReport:
     rep = FunctionReport(qualname)
     c = registry.CONTRACTS[qualname]
     try:
@@ -258,6 +266,8 @@ def verify_function(qualname: str, timeout_ms=20000, cross_check=False, only=Non
         any_return = False
         covers = []
         for vi, fixed in enumerate(space):
+            if chunk is not None and vi % chunk[1] != chunk[0]:
+                continue
             it = Interp(fi.module, contract=c, qualname=qualname)
             it.index_function(fi.node)
             missing = [k for k in c.loops if k >= it.n_loops] + [k for k in c.comps if k >= it.n_comps]
